@@ -50,6 +50,8 @@ def is_num(v):
 
 
 def finite(v):
+    if isinstance(v, int) and not isinstance(v, bool):
+        return True  # an int is an exact real, however large (never convert it here)
     return is_num(v) and math.isfinite(v)
 
 
@@ -60,6 +62,10 @@ def close_num(a, b, rel=1e-9, absol=0.0):
         return a == b
     if a == b:
         return True
+    try:
+        a, b = float(a), float(b)
+    except OverflowError:
+        return False  # an int beyond any double and something different from it
     if math.isnan(a) or math.isnan(b):
         return math.isnan(a) and math.isnan(b)
     if math.isinf(a) or math.isinf(b):
@@ -84,7 +90,10 @@ def snap_scale(snap):
             if isinstance(p, tuple):
                 for v in p:
                     if finite(v):
-                        m = max(m, abs(v))
+                        try:
+                            m = max(m, abs(float(v)))
+                        except OverflowError:
+                            m = max(m, 1e308)
     return m
 
 
@@ -128,10 +137,10 @@ def all_points_numeric(segs):
                 for v in p:
                     if not is_num(v):
                         return False, "segment %d (%s) point %d has non-numeric %r" % (i, name, j, v), nonfinite
-                    if not math.isfinite(v):
+                    if not finite(v):
                         nonfinite = True
             elif is_num(p):
-                if not math.isfinite(p):
+                if not finite(p):
                     nonfinite = True
             else:
                 return False, "segment %d (%s) field %d is %r" % (i, name, j, p), nonfinite
@@ -166,7 +175,20 @@ def _plain(se, v):
     return v
 
 
-def observe_doc(se, svg, keep_path=False, rendered_stroke=False):
+def _walk_tree(se, node, skip_ns=None):
+    """Document-order walk of the returned tree through its public list structure (what elements()
+    flattens), leaving out every node whose serial is in skip_ns together with everything under it."""
+    yield node
+    if isinstance(node, list) and isinstance(node, se.SVGElement):
+        for child in node:
+            if skip_ns:
+                vals = getattr(child, "values", None) or {}
+                if vals.get("data-n") in skip_ns:
+                    continue
+            yield from _walk_tree(se, child, skip_ns)
+
+
+def observe_doc(se, svg, keep_path=False, rendered_stroke=False, skip_ns=None):
     """Read-only observation of a parsed tree: one record per rendered element, in document order.
 
     Shape: (n, class, geometry of abs(Path(copy)), fill, stroke, stroke_width, id)
@@ -175,7 +197,7 @@ def observe_doc(se, svg, keep_path=False, rendered_stroke=False):
     out = []
     if svg is None or not hasattr(svg, "elements"):
         return out
-    for e in svg.elements():
+    for e in _walk_tree(se, svg, skip_ns):
         vals = getattr(e, "values", None) or {}
         n = vals.get("data-n")
         cls = type(e).__name__
